@@ -182,6 +182,8 @@ def index_object(desc):
             return tuple(v)
         return v
     if k in ("mask", "pmask"):
+        if desc.get("as") == "list":
+            return [bool(x) for x in desc["v"]]        # a boolean mask written as a plain Python list
         return np.array(desc["v"], dtype=bool)
     if k in ("slice", "pslice"):
         return slice(*desc["v"])
